@@ -382,6 +382,10 @@ func (n ambassador) findKeyByThumbprint(thumbPrint []byte, didDocumentAuthKeys [
 		if err != nil {
 			return nil, fmt.Errorf("unable to generate JWK from verificationMethod: %w", err)
 		}
+		if keyAsJWK == nil {
+			// JWK() returns nil without an error when the method has no publicKeyJwk
+			return nil, errors.New("unable to generate JWK from verificationMethod: missing publicKeyJwk")
+		}
 		documentThumbprint, err := keyAsJWK.Thumbprint(thumbprintAlg)
 		if err != nil {
 			return nil, fmt.Errorf("unable to generate DID document signing key thumbprint: %w", err)
